@@ -358,7 +358,63 @@ def configs():
         F = converter.Feature
         fs = [None, (F.BUILTIN_FUNCTIONS,), (F.EQUALITY_OPERATORS,), (F.BUILTIN_FUNCTIONS, F.EQUALITY_OPERATORS)]
         CONFIGS = [(r, f) for r in (True, False) for f in fs]
+        # LISTS is inside the guarantee only for list operations on local variables and parameters: used with
+        # recursive=False (the callees, e.g. the prelude's d()/n() working on module-level lists, stay unconverted)
+        # and only on programs that pass lists_eligible()
+        CONFIGS += [(False, (F.LISTS,)), (False, (F.LISTS, F.BUILTIN_FUNCTIONS, F.EQUALITY_OPERATORS))]
+        if os.environ.get('C01_LISTS_CONFIGS'):
+            CONFIGS = CONFIGS[-2:]
     return CONFIGS
+
+
+def lists_eligible(prog):
+    """The LISTS feature is inside the guarantee only for list operations on local variables and parameters: no
+    append/pop call or subscript store on a name that is free in the (nested) function performing it, none on a
+    declared global/nonlocal, none on an attribute."""
+    fn = _fn_node(prog)
+
+    def bound_in(f):
+        b = set(a.arg for a in f.args.args + f.args.kwonlyargs + f.args.posonlyargs)
+        if f.args.vararg:
+            b.add(f.args.vararg.arg)
+        if f.args.kwarg:
+            b.add(f.args.kwarg.arg)
+        outer = set()
+        stack = list(f.body) if isinstance(f, ast.FunctionDef) else [f.body]
+        while stack:
+            x = stack.pop()
+            if isinstance(x, (ast.FunctionDef, ast.Lambda, ast.ClassDef)):
+                if isinstance(x, ast.FunctionDef):
+                    b.add(x.name)
+                continue
+            if isinstance(x, (ast.Global, ast.Nonlocal)):
+                outer.update(x.names)
+            if isinstance(x, ast.Name) and isinstance(x.ctx, ast.Store):
+                b.add(x.id)
+            stack.extend(ast.iter_child_nodes(x))
+        return b - outer
+
+    def ok(f):
+        b = bound_in(f)
+        stack = list(f.body) if isinstance(f, ast.FunctionDef) else [f.body]
+        while stack:
+            x = stack.pop()
+            if isinstance(x, (ast.FunctionDef, ast.Lambda)):
+                if not ok(x):
+                    return False
+                continue
+            if isinstance(x, ast.ClassDef):
+                return False
+            base = None
+            if isinstance(x, ast.Call) and isinstance(x.func, ast.Attribute) and x.func.attr in ('append', 'pop', 'extend', 'insert'):
+                base = x.func.value
+            if isinstance(x, ast.Subscript) and isinstance(x.ctx, (ast.Store, ast.Del)):
+                base = x.value
+            if base is not None and not (isinstance(base, ast.Name) and base.id in b):
+                return False
+            stack.extend(ast.iter_child_nodes(x))
+        return True
+    return ok(fn)
 
 
 def cfg_name(c):
@@ -416,6 +472,10 @@ def worker(spec):
             cfgs = configs()
             ncfg = spec['configs_per_program']
             chosen = cfgs if ncfg >= len(cfgs) else [cfgs[(pi + k * 3) % len(cfgs)] for k in range(ncfg)]
+            if any(c[1] and any(f.name == 'LISTS' for f in c[1]) for c in chosen) and not lists_eligible(p):
+                plain = [c for c in cfgs if not (c[1] and any(f.name == 'LISTS' for f in c[1]))]
+                chosen = [c if not (c[1] and any(f.name == 'LISTS' for f in c[1])) else plain[(pi + 1) % len(plain)]
+                          for c in chosen] if plain else []
             runs = [(a, d) for a in p.inputs for d in p.decisions][:spec['runs_per_program']]
             refs, ref_raise_lines = [], []
             for (a, d) in runs:
